@@ -2,19 +2,33 @@
 C15 — failures during optimisation are contained and reported.
 
 State machine `optimizeSM` of `glotaran.optimization.optimize.optimize`:
-`Optimizer.__init__` + `Optimizer.optimize` + `Optimizer.create_result`
-(glotaran/optimization/optimizer.py), `TeeContext.__enter__/__exit__` (glotaran/utils/tee.py),
-`Parameters.set_from_history`, `ParameterHistory.append`.
+`Optimizer.__init__` + `Optimizer.optimize` + `Optimizer.objective_function` +
+`Optimizer.calculate_penalty` + `Optimizer.create_result` (glotaran/optimization/optimizer.py),
+`TeeContext.__enter__/__exit__` (glotaran/utils/tee.py), `Parameters.set_from_history`,
+`ParameterHistory.append`.
 
-What is a parameter here: the model never looks inside a parameter vector, so the vector type is a
-type parameter `α` (the theorems hold for every `α`; the driver instantiates it with vector ids).
+Order of effects.  The machine does not hard-code the order of the statements of these methods: it
+*interprets* the statement tables of GlotaranModel/Generated/C15.lean, which the harness regenerates
+from the source text on every run (types: GlotaranModel/C15Types.lean).  What one statement does is
+written here (`initStep`, `penaltyStep`, `objectiveStep`, `tryStep`, `handlerStep`, `crStep`).
+
+Parameters.  Three kinds of value occur: the vector `V` the optimiser hands to the objective, the
+record `R` that `ParameterHistory.append` stores, the parameter set `P` the `Optimizer` holds.  What
+the code does with them is a parameter of the machine (`ParamOps`):
+  * `ParamOps.plain α` (`V = R = P = α`, nothing is transformed) — the control-flow instance; the
+    driver line `run` executes it with vector ids;
+  * `paramOps ev freeLabels` (GlotaranModel/C15Params.lean) — C11's parameter model: vectors and
+    records in optimiser space (non-negative parameters as logarithms), `set_from_history` mapping
+    a record back with `exp`; the driver line `runp` executes it.
+The theorems hold for every `ParamOps`.
 
 Adversary.  `scipy.optimize.least_squares` is a `Schedule`: any finite list of objective calls at
 arbitrary vectors, each of which returns or raises (`fault = some msg`: some `calculate_matrix`
 raised `msg` during that evaluation); after the last call returned it either returns an
 `OptimizeResult` (`x`, `nfev`, `message`) or raises itself.  An exception of the objective is not
 caught by the optimiser (trusted assumption about scipy).  The two evaluations that `create_result`
-performs have their own fault flags.
+performs, numpy's SVD in the covariance computation and the construction of the result data have
+their own fault flags.
 
 Python exceptions do not roll back state: every step returns the new state *and* the exception.
 -/
@@ -39,11 +53,11 @@ structure GroupSpec where
   deriving Repr, DecidableEq
 
 /-- the caller's `Scheme`, reduced to what `Optimizer.__init__` inspects -/
-structure Scheme (α : Type) where
+structure Scheme (P : Type) where
   /-- `[label for label in scheme.model.dataset if label not in scheme.data]` -/
   missingData : List String
-  /-- `scheme.parameters` (`None`, or the vector of the parameters) -/
-  parameters : Option α
+  /-- `scheme.parameters` (`None`, or the parameter set) -/
+  parameters : Option P
   method : String
   groups : List GroupSpec
   deriving Repr, DecidableEq
@@ -56,31 +70,62 @@ inductive Err where
   | unsupportedResidualFunction (name : String)     -- UnsupportedResidualFunctionError
   | initialParameter                                -- InitialParameterError
   | raised (msg : Msg)   -- the very exception the model evaluation / least_squares raised
+  /-- a statement ran that the tables do not explain (`unknown`), or before what it needs exists
+      (AttributeError / NameError / IndexError): never produced with the tables of the current source -/
+  | internal (what : String)
   deriving Repr, DecidableEq
+
+/-- `str(e)` of an exception caught by `except Exception as e` in `Optimizer.optimize` -/
+def Err.msg : Err → Msg
+  | .raised m => m
+  | .internal s => s
+  | _ => ""
+
+/-! ### what the code does with parameter values -/
+
+structure ParamOps (V R P : Type) where
+  /-- `Parameters.set_from_label_and_value_arrays(free_labels, x)` on the parameter set `p` -/
+  setFree : P → V → P
+  /-- `update_parameter_expression()`, run in place whenever the arrays of a parameter set are read -/
+  refresh : P → P
+  /-- `Parameters.copy()`: the constructor of the copy runs `update_parameter_expression()` on it -/
+  copy : P → P
+  /-- the record `ParameterHistory.append` stores for an (already refreshed) parameter set -/
+  row : P → R
+  /-- `Parameters.set_from_history(history, i)` on the parameter set `p`, given record `i` -/
+  fromRow : P → R → P
+
+/-- nothing is transformed: the vector is the parameter set is the record -/
+def ParamOps.plain (α : Type) : ParamOps α α α :=
+  { setFree := fun _ x => x, refresh := fun p => p, copy := fun p => p, row := fun p => p,
+    fromRow := fun _ r => r }
+
+/-- the optimizer's private parameter set once `__init__` has taken the first history record from it -/
+def ParamOps.start {V R P : Type} (ops : ParamOps V R P) (p0 : P) : P := ops.refresh (ops.copy p0)
 
 /-! ### the adversary -/
 
-structure Call (α : Type) where
-  x : α
+structure Call (V : Type) where
+  x : V
   fault : Option Msg
   deriving Repr, DecidableEq
 
-structure LsqResult (α : Type) where
-  x : α
+structure LsqResult (V : Type) where
+  x : V
   nfev : Nat
   message : String
   deriving Repr, DecidableEq
 
-inductive LsqEnd (α : Type) where
-  | returns (r : LsqResult α)
+inductive LsqEnd (V : Type) where
+  | returns (r : LsqResult V)
   | raises (msg : Msg)
   deriving Repr, DecidableEq
 
-structure Schedule (α : Type) where
+structure Schedule (V : Type) where
   /-- the objective calls `least_squares` makes as long as each of them returns -/
-  calls : List (Call α)
+  calls : List (Call V)
   /-- what `least_squares` does once all of them have returned -/
-  finish : LsqEnd α
+  finish : LsqEnd V
   /-- fault of `create_result`'s `calculate_penalty()` -/
   penaltyFault : Option Msg
   /-- fault of `create_result`'s final `group.calculate` loop -/
@@ -95,46 +140,67 @@ structure Schedule (α : Type) where
 /-! ### state -/
 
 /-- everything outside the `Optimizer` object -/
-structure World (α : Type) where
+structure World (P : Type) where
   stdout : Handle
   warnings : List String
   /-- the caller's scheme object -/
-  scheme : Scheme α
+  scheme : Scheme P
   /-- instrumentation: model evaluations started -/
   evaluations : Nat
-  /-- instrumentation: vectors whose evaluation returned, oldest first -/
-  evaluatedOK : List α
+  /-- instrumentation: parameter sets whose evaluation returned, oldest first -/
+  evaluatedOK : List P
   deriving Repr, DecidableEq
 
-structure Optimizer (α : Type) where
-  /-- `self._parameters = scheme.parameters.copy()` -/
-  parameters : α
+structure Optimizer (V R P : Type) where
+  /-- `self._parameters` (a private copy of `scheme.parameters`) -/
+  parameters : P
   /-- `TeeContext().stdout`, captured at construction -/
   teeSaved : Handle
   verbose : Bool
   raiseException : Bool
-  optimizationResult : Option (LsqResult α)
+  optimizationResult : Option (LsqResult V)
   terminationReason : String
   /-- `ParameterHistory` rows (the iteration column is not modelled) -/
-  history : List α
+  history : List R
   deriving Repr, DecidableEq
 
-structure Result (α : Type) where
+structure Result (R P : Type) where
   success : Bool
   terminationReason : String
-  optimizedParameters : α
+  optimizedParameters : P
   /-- failure path: index of the history record the parameters were restored from -/
   restoredRecord : Option Nat
   numberOfFunctionEvaluations : Nat
-  parameterHistory : List α
+  parameterHistory : List R
+  /-- the parameter set whose evaluation was the last one to return when `additional_penalty` was read -/
+  penaltyOf : Option P
+  /-- the parameter set the result data (`group.calculate` + `create_result_data`) were computed from -/
+  dataOf : Option P
   deriving Repr, DecidableEq
 
-inductive Outcome (α : Type) where
-  | result (r : Result α)
+inductive Outcome (R P : Type) where
+  | result (r : Result R P)
   | exception (e : Err)
   deriving Repr, DecidableEq
 
-variable {α : Type}
+variable {V R P : Type}
+
+/-- `history.append(<ref>)`: reading the arrays refreshes the referenced object in place (a refresh
+    of a copy is lost); `none`: the referenced object does not exist (`scheme.parameters is None`) -/
+def appendFrom (ops : ParamOps V R P) (ref : ParamRef) (w : World P) (own : P) (hist : List R) :
+    Option (World P × P × List R) :=
+  match ref with
+  | .own => some (w, ops.refresh own, hist ++ [ops.row (ops.refresh own)])
+  | .ownCopy => some (w, own, hist ++ [ops.row (ops.refresh (ops.copy own))])
+  | .scheme =>
+    match w.scheme.parameters with
+    | some p => some ({ w with scheme := { w.scheme with parameters := some (ops.refresh p) } }, own,
+                      hist ++ [ops.row (ops.refresh p)])
+    | none => none
+  | .schemeCopy =>
+    match w.scheme.parameters with
+    | some p => some (w, own, hist ++ [ops.row (ops.refresh (ops.copy p))])
+    | none => none
 
 /-! ### `Optimizer.__init__` -/
 
@@ -153,137 +219,309 @@ def initGroups : List GroupSpec → Option Err
     | some e => some e
     | none => initGroups gs
 
-def init (w : World α) (verbose raiseException : Bool) : Except Err (Optimizer α) :=
-  if !w.scheme.missingData.isEmpty then .error (.missingDatasets w.scheme.missingData)
-  else
+/-- the attributes of the object under construction -/
+structure InitState (R P : Type) where
+  parameters : Option P
+  tee : Option Handle
+  groups : Bool
+  history : Option (List R)
+
+def initStep (ops : ParamOps V R P) (st : InitStep) (w : World P) (b : InitState R P) :
+    World P × Except Err (InitState R P) :=
+  match st with
+  | .checkMissingData =>
+    if !w.scheme.missingData.isEmpty then (w, .error (.missingDatasets w.scheme.missingData)) else (w, .ok b)
+  | .checkParametersNone =>
     match w.scheme.parameters with
-    | none => .error .parameterNotInitialized
-    | some p0 =>
-      if !Generated.supportedMethods.contains w.scheme.method then
-        .error (.unsupportedMethod w.scheme.method)
-      else
-        -- `self._tee = TeeContext()` happens here: it remembers the current `sys.stdout`
-        match initGroups w.scheme.groups with
-        | some e => .error e
-        | none =>
-          .ok { parameters := p0, teeSaved := w.stdout, verbose := verbose,
-                raiseException := raiseException, optimizationResult := none,
-                terminationReason := "", history := [p0] }
+    | none => (w, .error .parameterNotInitialized)
+    | some _ => (w, .ok b)
+  | .copyParameters =>
+    match w.scheme.parameters with
+    | none => (w, .error (.internal "AttributeError: 'NoneType' object has no attribute 'copy'"))
+    | some p => (w, .ok { b with parameters := some (ops.copy p) })
+  | .checkMethod =>
+    if !Generated.supportedMethods.contains w.scheme.method then (w, .error (.unsupportedMethod w.scheme.method))
+    else (w, .ok b)
+  | .createTee => (w, .ok { b with tee := some w.stdout })
+  | .createGroups =>
+    match initGroups w.scheme.groups with
+    | some e => (w, .error e)
+    | none => (w, .ok { b with groups := true })
+  | .appendHistory ref =>
+    match b.parameters with
+    | none => (w, .error (.internal "AttributeError: _parameters"))
+    | some own =>
+      match appendFrom ops ref w own [] with
+      | none => (w, .error (.internal "AttributeError: 'NoneType' object"))
+      | some (w', own', h) => (w', .ok { b with parameters := some own', history := some h })
+  | .unknown s => (w, .error (.internal s))
+
+def runInit (ops : ParamOps V R P) : List InitStep → World P → InitState R P →
+    World P × Except Err (InitState R P)
+  | [], w, b => (w, .ok b)
+  | st :: rest, w, b =>
+    match initStep ops st w b with
+    | (w', .error e) => (w', .error e)
+    | (w', .ok b') => runInit ops rest w' b'
+
+def init (ops : ParamOps V R P) (w : World P) (verbose raiseException : Bool) :
+    World P × Except Err (Optimizer V R P) :=
+  match runInit ops Generated.initSteps w ⟨none, none, false, none⟩ with
+  | (w', .error e) => (w', .error e)
+  | (w', .ok b) =>
+    match b.parameters, b.tee, b.history, b.groups with
+    | some p, some t, some h, true =>
+      (w', .ok { parameters := p, teeSaved := t, verbose := verbose, raiseException := raiseException,
+                 optimizationResult := none, terminationReason := "", history := h })
+    | _, _, _, _ => (w', .error (.internal "AttributeError: incomplete Optimizer"))
 
 /-! ### evaluations -/
 
 /-- one sweep `for group in self._optimization_groups: group.calculate(parameters)` -/
-def evaluate (w : World α) (p : α) (fault : Option Msg) : World α × Option Msg :=
+def evaluate (w : World P) (p : P) (fault : Option Msg) : World P × Option Msg :=
   let w := { w with evaluations := w.evaluations + 1 }
   match fault with
   | some m => (w, some m)
   | none => ({ w with evaluatedOK := w.evaluatedOK ++ [p] }, none)
 
-/-- `Optimizer.calculate_penalty`: the history is appended after the sweep returned -/
-def calculatePenalty (w : World α) (o : Optimizer α) (fault : Option Msg) :
-    World α × Optimizer α × Option Msg :=
-  match evaluate w o.parameters fault with
-  | (w', some m) => (w', o, some m)
-  | (w', none) => (w', { o with history := o.history ++ [o.parameters] }, none)
+def penaltyStep (ops : ParamOps V R P) (st : PenaltyStep) (w : World P) (o : Optimizer V R P)
+    (fault : Option Msg) : World P × Optimizer V R P × Option Err :=
+  match st with
+  | .evaluate =>
+    match evaluate w o.parameters fault with
+    | (w', some m) => (w', o, some (.raised m))
+    | (w', none) => (w', o, none)
+  | .appendHistory ref =>
+    match appendFrom ops ref w o.parameters o.history with
+    | none => (w, o, some (.internal "AttributeError: 'NoneType' object"))
+    | some (w', p, h) => (w', { o with parameters := p, history := h }, none)
+  | .unknown s => (w, o, some (.internal s))
+
+def runPenalty (ops : ParamOps V R P) : List PenaltyStep → World P → Optimizer V R P → Option Msg →
+    World P × Optimizer V R P × Option Err
+  | [], w, o, _ => (w, o, none)
+  | st :: rest, w, o, fault =>
+    match penaltyStep ops st w o fault with
+    | (w', o', some e) => (w', o', some e)
+    | (w', o', none) => runPenalty ops rest w' o' fault
+
+/-- `Optimizer.calculate_penalty`: with the current source, the history is appended after the sweep
+    returned -/
+def calculatePenalty (ops : ParamOps V R P) (w : World P) (o : Optimizer V R P) (fault : Option Msg) :
+    World P × Optimizer V R P × Option Err :=
+  runPenalty ops Generated.penaltySteps w o fault
+
+def objectiveStep (ops : ParamOps V R P) (st : ObjectiveStep) (w : World P) (o : Optimizer V R P)
+    (c : Call V) : World P × Optimizer V R P × Option Err :=
+  match st with
+  | .setFree => (w, { o with parameters := ops.setFree o.parameters c.x }, none)
+  | .calculatePenalty => calculatePenalty ops w o c.fault
+  | .unknown s => (w, o, some (.internal s))
+
+def runObjective (ops : ParamOps V R P) : List ObjectiveStep → World P → Optimizer V R P → Call V →
+    World P × Optimizer V R P × Option Err
+  | [], w, o, _ => (w, o, none)
+  | st :: rest, w, o, c =>
+    match objectiveStep ops st w o c with
+    | (w', o', some e) => (w', o', some e)
+    | (w', o', none) => runObjective ops rest w' o' c
 
 /-- `Optimizer.objective_function` -/
-def objective (w : World α) (o : Optimizer α) (c : Call α) : World α × Optimizer α × Option Msg :=
-  calculatePenalty w { o with parameters := c.x } c.fault
+def objective (ops : ParamOps V R P) (w : World P) (o : Optimizer V R P) (c : Call V) :
+    World P × Optimizer V R P × Option Err :=
+  runObjective ops Generated.objectiveSteps w o c
 
 /-- `least_squares(self.objective_function, ...)` driven by the adversary -/
-def leastSquares (w : World α) (o : Optimizer α) :
-    List (Call α) → LsqEnd α → World α × Optimizer α × Except Msg (LsqResult α)
+def leastSquares (ops : ParamOps V R P) (w : World P) (o : Optimizer V R P) :
+    List (Call V) → LsqEnd V → World P × Optimizer V R P × Except Err (LsqResult V)
   | [], .returns r => (w, o, .ok r)
-  | [], .raises m => (w, o, .error m)
+  | [], .raises m => (w, o, .error (.raised m))
   | c :: cs, fin =>
-    match objective w o c with
-    | (w', o', some m) => (w', o', .error m)
-    | (w', o', none) => leastSquares w' o' cs fin
+    match objective ops w o c with
+    | (w', o', some e) => (w', o', .error e)
+    | (w', o', none) => leastSquares ops w' o' cs fin
 
 /-! ### `Optimizer.optimize` -/
 
 def failureWarning (m : Msg) : String := "Optimization failed:\n\n" ++ m
 
-def optimize (w : World α) (o : Optimizer α) (sch : Schedule α) :
-    World α × Optimizer α × Option Err :=
-  let w := { w with stdout := Handle.tee }                         -- TeeContext.__enter__
-  match leastSquares w o sch.calls sch.finish with
-  | (w, o, .ok res) =>
-    let o := { o with optimizationResult := some res, terminationReason := res.message }
-    ({ w with stdout := o.teeSaved }, o, none)                     -- __exit__
-  | (w, o, .error m) =>
-    if o.raiseException then
-      ({ w with stdout := o.teeSaved }, o, some (.raised m))       -- `raise e`, then __exit__
-    else
-      let w := { w with warnings := w.warnings ++ [failureWarning m] }
-      let o := { o with terminationReason := m }
-      ({ w with stdout := o.teeSaved }, o, none)                   -- __exit__
+def tryStep (ops : ParamOps V R P) (st : TryStep) (w : World P) (o : Optimizer V R P) (sch : Schedule V) :
+    World P × Optimizer V R P × Option Err :=
+  match st with
+  | .leastSquares =>
+    match leastSquares ops w o sch.calls sch.finish with
+    | (w', o', .ok res) => (w', { o' with optimizationResult := some res }, none)
+    | (w', o', .error e) => (w', o', some e)
+  | .setReasonFromResult =>
+    match o.optimizationResult with
+    | some res => (w, { o with terminationReason := res.message }, none)
+    | none => (w, o, some (.internal "AttributeError: 'NoneType' object has no attribute 'message'"))
+  | .unknown s => (w, o, some (.internal s))
+
+def runTry (ops : ParamOps V R P) : List TryStep → World P → Optimizer V R P → Schedule V →
+    World P × Optimizer V R P × Option Err
+  | [], w, o, _ => (w, o, none)
+  | st :: rest, w, o, sch =>
+    match tryStep ops st w o sch with
+    | (w', o', some e) => (w', o', some e)
+    | (w', o', none) => runTry ops rest w' o' sch
+
+/-- one statement of `except Exception as e:`; `some _` = the handler is left by an exception -/
+def handlerStep (st : HandlerStep) (w : World P) (o : Optimizer V R P) (e : Err) :
+    World P × Optimizer V R P × Option Err :=
+  match st with
+  | .reraiseIfRaise => if o.raiseException then (w, o, some e) else (w, o, none)
+  | .warn => ({ w with warnings := w.warnings ++ [failureWarning e.msg] }, o, none)
+  | .setReasonFromException => (w, { o with terminationReason := e.msg }, none)
+  | .unknown s => (w, o, some (.internal s))
+
+def runHandler : List HandlerStep → World P → Optimizer V R P → Err →
+    World P × Optimizer V R P × Option Err
+  | [], w, o, _ => (w, o, none)      -- the exception is swallowed
+  | st :: rest, w, o, e =>
+    match handlerStep st w o e with
+    | (w', o', some e') => (w', o', some e')
+    | (w', o', none) => runHandler rest w' o' e
+
+/-- reading the start vector: `<ref>.get_label_value_and_bounds_arrays(exclude_non_vary=True)` -/
+def readStart (ops : ParamOps V R P) (ref : ParamRef) (w : World P) (o : Optimizer V R P) :
+    World P × Optimizer V R P :=
+  match ref with
+  | .own => (w, { o with parameters := ops.refresh o.parameters })
+  | .scheme => ({ w with scheme := { w.scheme with parameters := w.scheme.parameters.map ops.refresh } }, o)
+  | .ownCopy => (w, o)
+  | .schemeCopy => (w, o)
+
+def optimize (ops : ParamOps V R P) (w : World P) (o : Optimizer V R P) (sch : Schedule V) :
+    World P × Optimizer V R P × Option Err :=
+  let T := Generated.optimizeTable
+  let (w, o) := readStart ops T.startVector w o
+  let w := if T.teeWrapsTry then { w with stdout := Handle.tee } else w       -- TeeContext.__enter__
+  let (w, o, e) :=
+    match runTry ops T.tryBody w o sch with
+    | (w, o, none) => (w, o, none)
+    | (w, o, some e) => runHandler T.handler w o e
+  (if T.teeWrapsTry then { w with stdout := o.teeSaved } else w, o, e)       -- __exit__, on every path
 
 /-! ### `Optimizer.create_result` -/
 
-/-- `self._parameters.set_from_history(self._parameter_history, -2)` -/
-def restore (o : Optimizer α) : Optimizer α :=
-  match o.history[o.history.length - 2]? with
-  | some p => { o with parameters := p }
-  | none => o     -- not reachable: the history has at least two records here
+/-- local variables and `result_args` entries of `create_result` that the model follows -/
+structure Frame (P : Type) where
+  success : Option Bool
+  reason : Option String
+  nfev : Option Nat
+  historyBound : Bool
+  parametersBound : Bool
+  restored : Option Nat
+  /-- outer `none`: `additional_penalty` not read yet -/
+  penaltyOf : Option (Option P)
+  dataOf : Option P
+  dataBuilt : Bool
 
-/-- the part of `create_result` after the parameters have been chosen: `calculate_penalty()`, the final
-    `group.calculate` / `create_result_data` loop, `Result(**result_args)` -/
-def buildResult (w : World α) (o : Optimizer α) (sch : Schedule α) (restored : Option Nat) (nfe : Nat) :
-    World α × Outcome α :=
-  match calculatePenalty w o sch.penaltyFault with
-  | (w, _, some m) => (w, .exception (.raised m))
-  | (w, o2, none) =>
-    match evaluate w o2.parameters sch.finalFault with
-    | (w, some m) => (w, .exception (.raised m))
-    | (w, none) =>
-      match sch.dataFault with
-      | some m => (w, .exception (.raised m))
-      | none =>
-        (w, .result { success := o.optimizationResult.isSome,
-                      terminationReason := o2.terminationReason,
-                      optimizedParameters := o2.parameters,
-                      restoredRecord := restored,
-                      numberOfFunctionEvaluations := nfe,
-                      parameterHistory := o2.history })
+def Frame.empty : Frame P := ⟨none, none, none, false, false, none, none, none, false⟩
 
-def createResult (w : World α) (o : Optimizer α) (sch : Schedule α) : World α × Outcome α :=
-  if o.history.length = 1 then (w, .exception .initialParameter)
-  else
+inductive StepRes (V R P : Type) where
+  | next (w : World P) (o : Optimizer V R P) (f : Frame P)
+  | stop (w : World P) (out : Outcome R P)
+
+def guardHolds : Guard → Option Bool → Option Bool
+  | .always, _ => some true
+  | .ifSuccess, s => s
+  | .ifNotSuccess, s => s.map (!·)
+
+def crStep (ops : ParamOps V R P) (sch : Schedule V) (st : CrStep) (w : World P) (o : Optimizer V R P)
+    (f : Frame P) : StepRes V R P :=
+  match st with
+  | .readSuccess => .next w o { f with success := some o.optimizationResult.isSome }
+  | .checkInitial =>
+    if o.history.length = 1 then .stop w (.exception .initialParameter) else .next w o f
+  | .restore back =>
+    -- Python index `-back`
+    if back = 0 ∨ o.history.length < back then .stop w (.exception (.internal "IndexError")) else
+    match o.history[o.history.length - back]? with
+    | some rec => .next w { o with parameters := ops.fromRow o.parameters rec }
+                    { f with restored := some (o.history.length - back) }
+    | none => .stop w (.exception (.internal "IndexError"))
+  | .bindHistory => .next w o { f with historyBound := true }
+  | .readReason => .next w o { f with reason := some o.terminationReason }
+  | .readNfev =>
+    match f.success, o.optimizationResult with
+    | some true, some r => .next w o { f with nfev := some r.nfev }
+    | some false, _ => .next w o { f with nfev := some o.history.length }
+    | _, _ => .stop w (.exception (.internal "NameError/AttributeError: nfev"))
+  | .setFromResult =>
     match o.optimizationResult with
-    | none =>
-      -- `number_of_function_evaluations` is read before the re-evaluation appends its record
-      buildResult w (restore o) sch (some (o.history.length - 2)) o.history.length
-    | some r =>
-      -- `set_from_label_and_value_arrays(labels, result.x)`, then the covariance matrix
-      match sch.covarianceFault with
-      | some m => (w, .exception (.raised m))
-      | none => buildResult w { o with parameters := r.x } sch none r.nfev
+    | some r => .next w { o with parameters := ops.setFree o.parameters r.x } f
+    | none => .stop w (.exception (.internal "AttributeError: 'NoneType' object has no attribute 'x'"))
+  | .covariance =>
+    match sch.covarianceFault with
+    | some m => .stop w (.exception (.raised m))
+    | none => .next w o f
+  | .calculatePenalty =>
+    match calculatePenalty ops w o sch.penaltyFault with
+    | (w', _, some e) => .stop w' (.exception e)
+    | (w', o', none) => .next w' o' f
+  | .readAdditionalPenalty => .next w o { f with penaltyOf := some w.evaluatedOK.getLast? }
+  | .bindParameters => .next w o { f with parametersBound := true }
+  | .finalCalculate =>
+    match evaluate w o.parameters sch.finalFault with
+    | (w', some m) => .stop w' (.exception (.raised m))
+    | (w', none) => .next w' o { f with dataOf := some o.parameters }
+  | .createResultData =>
+    match sch.dataFault with
+    | some m => .stop w (.exception (.raised m))
+    | none => .next w o { f with dataBuilt := true }
+  | .construct =>
+    match f.success, f.reason, f.nfev, f.penaltyOf with
+    | some s, some reason, some n, some pen =>
+      if f.historyBound && f.parametersBound && f.dataBuilt then
+        .stop w (.result { success := s, terminationReason := reason, optimizedParameters := o.parameters,
+                           restoredRecord := f.restored, numberOfFunctionEvaluations := n,
+                           parameterHistory := o.history, penaltyOf := pen, dataOf := f.dataOf })
+      else .stop w (.exception (.internal "TypeError: Result() missing arguments"))
+    | _, _, _, _ => .stop w (.exception (.internal "TypeError: Result() missing arguments"))
+  | .unknown s => .stop w (.exception (.internal s))
+
+def runCr (ops : ParamOps V R P) (sch : Schedule V) : List GStep → World P → Optimizer V R P → Frame P →
+    World P × Outcome R P
+  | [], w, _, _ => (w, .exception (.internal "create_result returned None"))
+  | g :: rest, w, o, f =>
+    match guardHolds g.guard f.success with
+    | none => (w, .exception (.internal "NameError: success"))
+    | some false => runCr ops sch rest w o f
+    | some true =>
+      match crStep ops sch g.step w o f with
+      | .next w' o' f' => runCr ops sch rest w' o' f'
+      | .stop w' out => (w', out)
+
+def createResult (ops : ParamOps V R P) (w : World P) (o : Optimizer V R P) (sch : Schedule V) :
+    World P × Outcome R P :=
+  runCr ops sch Generated.createResultSteps w o Frame.empty
 
 /-- `glotaran.optimization.optimize.optimize(scheme, verbose, raise_exception)` -/
-def optimizeSM (w : World α) (verbose raiseException : Bool) (sch : Schedule α) :
-    World α × Outcome α :=
-  match init w verbose raiseException with
-  | .error e => (w, .exception e)
-  | .ok o =>
-    match optimize w o sch with
+def optimizeSM (ops : ParamOps V R P) (w : World P) (verbose raiseException : Bool) (sch : Schedule V) :
+    World P × Outcome R P :=
+  match init ops w verbose raiseException with
+  | (w, .error e) => (w, .exception e)
+  | (w, .ok o) =>
+    match optimize ops w o sch with
     | (w, _, some e) => (w, .exception e)
-    | (w, o, none) => createResult w o sch
+    | (w, o, none) => createResult ops w o sch
 
 /-- a fresh world around a scheme -/
-def World.fresh (s : Scheme α) (out : Handle) : World α :=
+def World.fresh (s : Scheme P) (out : Handle) : World P :=
   { stdout := out, warnings := [], scheme := s, evaluations := 0, evaluatedOK := [] }
 
 /-! ### single-fault schedules: "an exception injected at the k-th model evaluation" -/
 
 /-- objective calls at `xs` of which number `k` (1-based) raises `msg`; `k = 0` or `k > xs.length`: none -/
-def injectCalls : List α → Nat → Msg → List (Call α)
+def injectCalls : List V → Nat → Msg → List (Call V)
   | [], _, _ => []
   | x :: xs, k, msg => { x := x, fault := if k = 1 then some msg else none } :: injectCalls xs (k - 1) msg
 
 /-- the fault-free run evaluates at `xs` (optimiser), then twice in `create_result`;
     `inject xs fin k msg` makes evaluation number `k` (1-based) of that run raise `msg` -/
-def inject (xs : List α) (fin : LsqEnd α) (k : Nat) (msg : Msg) : Schedule α :=
+def inject (xs : List V) (fin : LsqEnd V) (k : Nat) (msg : Msg) : Schedule V :=
   { calls := injectCalls xs k msg,
     finish := fin,
     penaltyFault := if k = xs.length + 1 then some msg else none,
@@ -291,7 +529,7 @@ def inject (xs : List α) (fin : LsqEnd α) (k : Nat) (msg : Msg) : Schedule α 
     covarianceFault := none,
     dataFault := none }
 
-/-! ### driver -/
+/-! ### driver (control-flow instance: `ParamOps.plain Nat`, vectors are ids) -/
 open Glotaran.Proto
 
 def optStr? : Tree → Option (Option String)
@@ -303,15 +541,24 @@ def parseGroup : Tree → Option GroupSpec
   | .list [l, r] => do some { missingLabel := ← optStr? l, residualFunction := ← r.str? }
   | _ => none
 
-def parseCall : Tree → Option (Call Nat)
-  | .list [x, f] => do some { x := ← x.nat?, fault := ← optStr? f }
+def parseCallWith {V : Type} (px : Tree → Option V) : Tree → Option (Call V)
+  | .list [x, f] => do some { x := ← px x, fault := ← optStr? f }
   | _ => none
 
-def parseFinish : Tree → Option (LsqEnd Nat)
+def parseFinishWith {V : Type} (px : Tree → Option V) : Tree → Option (LsqEnd V)
   | .list [.atom "ret", x, n, m] => do
-      some (.returns { x := ← x.nat?, nfev := ← n.nat?, message := ← m.str? })
+      some (.returns { x := ← px x, nfev := ← n.nat?, message := ← m.str? })
   | .list [.atom "raise", m] => do some (.raises (← m.str?))
   | _ => none
+
+def parseCall : Tree → Option (Call Nat) := parseCallWith Tree.nat?
+def parseFinish : Tree → Option (LsqEnd Nat) := parseFinishWith Tree.nat?
+
+/-- the six trees `<calls> <finish> <penalty fault> <final fault> <covariance fault> <result data fault>` -/
+def parseScheduleWith {V : Type} (px : Tree → Option V) (calls fin pf ff cf df : Tree) : Option (Schedule V) := do
+  some { calls := ← calls.listOf? (parseCallWith px), finish := ← parseFinishWith px fin,
+         penaltyFault := ← optStr? pf, finalFault := ← optStr? ff,
+         covarianceFault := ← optStr? cf, dataFault := ← optStr? df }
 
 def showHandle : Handle → String
   | .user i => s!"user:{i}"
@@ -325,21 +572,25 @@ def showErr : Err → String
   | .unsupportedResidualFunction f => s!"UnsupportedResidualFunctionError {encodeStr f}"
   | .initialParameter => "InitialParameterError ~"
   | .raised m => s!"raised {encodeStr m}"
+  | .internal s => s!"internal {encodeStr s}"
 
-def showOutcome : Outcome Nat → String
+def showOutcome : Outcome Nat Nat → String
   | .exception e => s!"exc {showErr e}"
   | .result r =>
     s!"result {showBool r.success} {encodeStr r.terminationReason} {r.optimizedParameters} " ++
-    s!"{showOpt toString r.restoredRecord} {r.numberOfFunctionEvaluations} {showNats r.parameterHistory}"
+    s!"{showOpt toString r.restoredRecord} {r.numberOfFunctionEvaluations} {showNats r.parameterHistory} " ++
+    s!"{showOpt toString r.penaltyOf} {showOpt toString r.dataOf}"
 
-def showRun (s : Scheme Nat) (p : World Nat × Outcome Nat) : String :=
-  s!"{showOutcome p.2} | evals={p.1.evaluations} stdout={showHandle p.1.stdout} " ++
-  s!"warnings={showStrs p.1.warnings} ok={showNats p.1.evaluatedOK} " ++
-  s!"scheme={showBool (decide (p.1.scheme = s))}"
+def showWorldTail {P : Type} [DecidableEq P] (s : Scheme P) (w : World P) : String :=
+  s!"evals={w.evaluations} stdout={showHandle w.stdout} warnings={showStrs w.warnings} " ++
+  s!"scheme={showBool (decide (w.scheme = s))}"
+
+def showRun (s : Scheme Nat) (p : World Nat × Outcome Nat Nat) : String :=
+  s!"{showOutcome p.2} | {showWorldTail s p.1} ok={showNats p.1.evaluatedOK}"
 
 /-- `run <stdout id> <verbose> <raise> <missing data> <[]|[params id]> <method> <groups>
         <calls> <finish> <penalty fault> <final fault> <covariance fault> <result data fault>` -/
-def driverStep (u : Unit) (ts : List Tree) : Unit × String :=
+def driverStepPlain (ts : List Tree) : Option String :=
   match ts with
   | [.atom "run", out, vb, rs, md, ps, meth, gs, calls, fin, pf, ff, cf, df] =>
     let parsed : Option (Scheme Nat × Handle × Bool × Bool × Schedule Nat) := do
@@ -349,23 +600,22 @@ def driverStep (u : Unit) (ts : List Tree) : Unit × String :=
         | _ => none
       let s : Scheme Nat := { missingData := ← md.strs?, parameters := ps, method := ← meth.str?,
                               groups := ← gs.listOf? parseGroup }
-      let sch : Schedule Nat := { calls := ← calls.listOf? parseCall, finish := ← parseFinish fin,
-                                  penaltyFault := ← optStr? pf, finalFault := ← optStr? ff,
-                                  covarianceFault := ← optStr? cf, dataFault := ← optStr? df }
+      let sch ← parseScheduleWith Tree.nat? calls fin pf ff cf df
       some (s, .user (← out.nat?), ← vb.bool?, ← rs.bool?, sch)
     match parsed with
-    | none => (u, "bad-op")
-    | some (s, out, vb, rs, sch) => (u, showRun s (optimizeSM (World.fresh s out) vb rs sch))
+    | none => none
+    | some (s, out, vb, rs, sch) =>
+      some (showRun s (optimizeSM (ParamOps.plain Nat) (World.fresh s out) vb rs sch))
   | [.atom "inject", xs, fin, k, m] =>
     -- the single-fault schedule of the theorems, printed so that the harness can compare it with
     -- the schedule it observed
     let parsed : Option (Schedule Nat) := do
       some (inject (← xs.nats?) (← parseFinish fin) (← k.nat?) (← m.str?))
     match parsed with
-    | none => (u, "bad-op")
+    | none => none
     | some sch =>
       let calls := sch.calls.map (fun c => showList [toString c.x, showOpt encodeStr c.fault])
-      (u, s!"{showList calls} {showOpt encodeStr sch.penaltyFault} {showOpt encodeStr sch.finalFault}")
-  | _ => (u, "bad-op")
+      some s!"{showList calls} {showOpt encodeStr sch.penaltyFault} {showOpt encodeStr sch.finalFault}"
+  | _ => none
 
 end Glotaran.C15
